@@ -46,6 +46,13 @@ CHECKS["C06"] = dict(
     note="Trusted: UFL integral_data grouping as the meaning of 'declared for an id', basix hashes, the reference evaluator (see C01).",
     design="5/C06",
 )
+CHECKS["C05"] = dict(
+    category="exploration",
+    technique="Hypothesis-generated forms with vanishing/partially used coefficients; assembler-model packing differential against the reference evaluator + NaN poisoning of slots flagged disabled (bitwise metamorphic relation)",
+    text="Generated forms (2-5 coefficients, 1-3 constants, shuffled declaration order, Gateaux derivatives that eliminate coefficients, several integrals with different coefficient subsets, interior facets) are packed exactly as an assembler would from the compiled descriptor; the kernel must equal the reference, and overwriting every slot whose enabled_coefficients flag is false with NaN must not change a single byte of A. Sampling over forms and inputs.",
+    note="Trusted: UFL reduced coefficients / original positions; reference evaluator (see C01).",
+    design="5/C05",
+)
 PENDING = {}
 
 def main():
